@@ -15,6 +15,7 @@ import GV.Model.MultiAsset
     rt A           -> cmp=<Decode(Encode A).Compare(A)> zeros=<#zero/nil entries + #empty policies> dup=<0|1> enc2=<hex>
     asset A P N    -> quantity | nil
     pols A         -> sorted policy ids
+    cmpw|addw <s|u> A B, add3w <s|u> A B C   the same on MultiAsset[int64] (s) / MultiAsset[uint64] (u)
 -/
 namespace GV.Drv.C06
 open GV.Line GV.Model.MultiAsset GV.Lib.AssocMap GV.Lib.CborLite
@@ -101,8 +102,43 @@ def countZeros (m : MA) : Nat :=
 
 def wf (m : MA) : Bool := decide (WF m)
 
+/-- fixed-width instantiation selected by the op: (wrap, range predicate) -/
+def widthOf (k : String) : Option ((Int → Int) × (Int → Bool)) :=
+  if k = "s" then some (wrapS64, isInt64) else if k = "u" then some (wrapU64, isUint64) else none
+
+/-- all per-key integer sums of two values (zero sums included), for the overflow test -/
+def specSums (a b : MA) : List Int :=
+  let keysOf (m : MA) := m.flatMap (fun e => e.2.map (fun x => (e.1, x.1)))
+  let get (m : MA) (p n : Bytes) : Int :=
+    (m.flatMap (fun e => e.2.filterMap (fun x => if e.1 = p && x.1 = n then some (val x.2) else none))).sum
+  ((keysOf a ++ keysOf b).eraseDups).map (fun k => get a k.1 k.2 + get b k.1 k.2)
+
+def handleW (k a b : String) (c : Option String) (op : String) : Out :=
+  match widthOf k, parseMA? a, parseMA? b with
+  | some (w, inR), some ma, some mb =>
+    if !(wf ma && wf mb && allAmounts inR ma && allAmounts inR mb) then badOp else
+    if op = "cmpw" then { model := boolStr (compare ma mb), spec := boolStr (specEq ma mb) }
+    else if op = "addw" then
+      let r := addW w ma mb
+      -- "agrees with per-asset integer addition": demanded whenever no component overflows
+      let spec := if (specSums ma mb).all inR then s!"norm={renderTriples (specAdd ma mb)} *" else "*"
+      { model := s!"norm={renderNorm r} full={renderFull r}", spec := spec }
+    else
+      match c.bind parseMA? with
+      | some mc =>
+        if !(wf mc && allAmounts inR mc) then badOp else
+        let l := addW w (addW w ma mb) mc
+        let r := addW w ma (addW w mb mc)
+        { model := s!"assoc={boolStr (compare l r)} comm={boolStr (compare (addW w ma mb) (addW w mb ma))}",
+          spec := "assoc=1 comm=1" }
+      | none => badOp
+  | _, _, _ => badOp
+
 def handle (line : String) : Out :=
   match tokens line with
+  | ["cmpw", k, a, b] => handleW k a b none "cmpw"
+  | ["addw", k, a, b] => handleW k a b none "addw"
+  | ["add3w", k, a, b, c] => handleW k a b (some c) "add3w"
   | ["cmp", a, b] =>
     match parseMA? a, parseMA? b with
     | some a, some b =>
